@@ -115,13 +115,6 @@ proof fn lemma_header_attrs_ok()
                     wf ==> buf_seq(&$BUF) == s1(0x01) + keys_enc(m, ops, ops.len()),
                     c09(wf ==> loop1_inv(m, hs, ops, qs, it1.index@)),
 '''},
-         2: {'iter_name': 'it3', 'spec': '''
-            invariant
-                gs == self.sgroups(), groups_sizes(gs), wf == groups_wf(gs),
-                forall|i: int| 0 <= i < it_rem(it3.snapshot@).len() ==> from_groups(gs, *(#[trigger] it_rem(it3.snapshot@)[i])),
-                wf ==> buf_seq(&$BUF) == pre + others_enc(gs, others, others.len()),
-                wf ==> others_ok(gs, others),
-'''},
      },
      'w8': [
          {'loop': 1, 'kind': 'values', 'iter_name': 'it2', 'spec': '''
@@ -132,6 +125,15 @@ proof fn lemma_header_attrs_ok()
                     c09(wf ==> loop1_inv(m, hs, ops1, qs, hs.len() as int)),
                     c09(wf ==> loop2_inv(m, ops1, iter_keys(it_rem(it2.snapshot@)), ops, ps, it2.index@)),
 '''},
+         {'loop': 2, 'kind': 'filter', 'iter_name': 'it3', 'spec': '''
+            invariant
+                gs == self.sgroups(), groups_sizes(gs), wf == groups_wf(gs),
+                it_rem(it3.snapshot@).len() == gs.len(),
+                forall|i: int| 0 <= i < gs.len() ==> *(#[trigger] it_rem(it3.snapshot@)[i]) == gs[i],
+                wf ==> buf_seq(&$BUF) == pre + others_enc(gs, others, others.len()),
+                wf ==> others_ok(gs, others),
+                c03(wf ==> others_idx(others) =~= non_op_idx(gs, it3.index@)),
+'''},
          {'loop': 3, 'kind': 'values', 'iter_name': 'it4', 'spec': '''
                 invariant
                     mg == group.sattrs(), attrs_sizes(mg), wf ==> attrs_wf(mg),
@@ -141,8 +143,6 @@ proof fn lemma_header_attrs_ok()
                     wf ==> buf_seq(&$BUF) == base + s1(group.stag() as u8) + keys_enc(mg, cur, cur.len()),
 '''},
      ],
-     'closures': {0: {'expect_params': '|group|', 'types': {'group': '&&IppAttributeGroup'}, 'ret': 'b: bool',
-                      'spec': '    ensures b == (group.stag() != DelimiterTag::OperationAttributes)'}},
      'proofs': [
          {'at_start': True, 'text': '''broadcast use crate::verif_lemmas::group_ipp_attrs;
         let ghost gs = self.sgroups();
@@ -199,8 +199,8 @@ proof fn lemma_header_attrs_ok()
 '''},
          {'loop': 2, 'where': 'body_start', 'text': '''
             broadcast use crate::verif_lemmas::group_ipp_attrs;
-            let ghost gi = choose|j: int| 0 <= j < gs.len() && gs[j] == *group && gs[j].stag() != DelimiterTag::OperationAttributes;
-            proof { assert(from_groups(gs, *group)); }
+            let ghost gi = it3.index@;
+            proof { assert(*group == gs[gi] && gs[gi].stag() != DelimiterTag::OperationAttributes); }
             let ghost mg = group.sattrs();
             let ghost base = buf_seq(&$BUF);
 '''},
@@ -226,6 +226,7 @@ proof fn lemma_header_attrs_ok()
                 assert(key_perm(cur, mg));
                 crate::verif_lemmas::lemma_others_enc_push(gs, others, (gi, cur));
                 others = others.push((gi, cur));
+                assert(others_idx(others) =~= others_idx(others.drop_last()).push(gi));
             } }
 '''},
          {'before': '$BUF.freeze()', 'optional': True,
